@@ -578,6 +578,9 @@ func panicSite(stack string) string {
 		}
 		if strings.HasPrefix(l, "github.com/MixinNetwork/mixin/") {
 			f := strings.TrimPrefix(l, "github.com/MixinNetwork/mixin/")
+			if strings.HasPrefix(f, "storage.sim") {
+				continue // instrumentation helper of the overlay build, not a site of the code under test
+			}
 			if i := strings.IndexByte(f, '('); i > 0 {
 				// keep receiver types, drop arguments
 				if j := strings.LastIndex(f, "("); j > 0 {
